@@ -19,6 +19,7 @@ type replayFile struct {
 	Scenario  map[string]interface{} `json:"scenario"`
 	Decisions []decision             `json:"decisions"`
 	Violation *violation             `json:"violation,omitempty"`
+	History   *history               `json:"history,omitempty"`
 	Signature string                 `json:"signature"`
 	RaceSig   string                 `json:"race_signature,omitempty"`
 	RaceText  string                 `json:"race_report,omitempty"`
@@ -93,7 +94,9 @@ func report(o *options, p *prepared, f *finding, budgetS float64) string {
 	}
 
 	// 1. obtain the explicit execution (scenario + decision list)
+	var hist *history
 	if f.Rec != nil {
+		hist = f.Rec.Hist
 		rf.Scenario = f.Rec.Scenario
 		if !f.Rec.Overflow {
 			rf.Decisions = f.Rec.Decisions
@@ -108,6 +111,7 @@ func report(o *options, p *prepared, f *finding, budgetS float64) string {
 				rf.Decisions = rec.Decisions
 			}
 		}
+		hist = f.Hist
 	}
 
 	// 2. verify the explicit execution reproduces the violation in a fresh process
@@ -118,6 +122,29 @@ func report(o *options, p *prepared, f *finding, budgetS float64) string {
 	explicitOK := false
 	if rf.Decisions != nil && rf.Scenario != nil {
 		explicitOK, _, _ = tryReplay(p, rf, f.Sig, attempts)
+		if !explicitOK && hist != nil && hist.Count > 0 {
+			// the run may depend on library state accumulated by the runs the same worker
+			// process executed before it: replay those first, then find the shortest
+			// suffix of that history which still reproduces the violation
+			rf.History = hist
+			if ok, _, _ := tryReplay(p, rf, f.Sig, attempts); ok {
+				explicitOK = true
+				for keep := uint64(1); keep < hist.Count; keep *= 2 {
+					h := *hist
+					h.From = hist.From + (hist.Count-keep)*hist.Stride
+					h.Count = keep
+					h.ColdFirst = false
+					rf.History = &h
+					if ok, _, _ := tryReplay(p, rf, f.Sig, attempts); ok {
+						break
+					}
+					rf.History = hist
+				}
+				rf.Note = fmt.Sprintf("depends on library state left behind by earlier runs of the same process: the replay first re-executes %d earlier run(s)", rf.History.Count)
+			} else {
+				rf.History = nil
+			}
+		}
 	}
 	if !explicitOK {
 		// fall back to the seed: the worker regenerates scenario and schedule from it
